@@ -19,6 +19,7 @@ fn main() {
     let id = std::env::args().nth(1).unwrap_or_default();
     let r = std::panic::catch_unwind(|| match id.as_str() {
         "C17" => c17::run(),
+        "C06-LISTING" => c17::listing_stage(&std::env::args().nth(2).unwrap_or_default()),
         _ => {
             eprintln!("MACHINERY-ERROR unknown property id '{}'", id);
             std::process::exit(2)
